@@ -86,8 +86,8 @@ def cases(tier, seed):
     out = []
     for d in (2, 3):
         for cell, dev in explore.cells(_dims(d), plan[d]):
-            out.append(_normalise(dict(cell, d=d, kind="model")))
-    out = explore.dedupe(out, lambda c: repr(sorted(c.items())))
+            out.append(_normalise(dict(cell, d=d, kind="model", dev=dev)))
+    out = explore.dedupe(out, lambda c: repr(sorted((k, v) for k, v in c.items() if k != "dev")))
     for c in out:
         c["cost"] = (3 if c["cls"] in ("DilResNet", "UNet") else 1) * (4 if c["d"] == 3 else 1)
         c["grp"] = f"{c['d']}/{c['equivariant']}/{c['cls']}"
@@ -237,7 +237,7 @@ def run_case(case, seed):
     if case["cls"] in ("ConvBlock", "ConvBlockPre") and not case["equivariant"]:
         out_sig = [((0, 0), 3)]
     out_channels = {tuple(kp): c for kp, c in out_sig}
-    rng = rng_for(seed, "C20", repr(sorted(case.items())))
+    rng = rng_for(seed, "C20", repr(sorted((k, v) for k, v in case.items() if k != "dev")))
     xb = mlh.make_input(in_sig, D, sp, rng, integer=False)
     x = mlh.to_mi(xb, D, flags, order=[tuple(kp) for kp, _ in in_sig])
     try:
